@@ -1,4 +1,5 @@
 """C25 -- host state changes keep a single reconnector and notify listeners once."""
+import itertools
 import os
 
 from hypothesis import strategies as st
@@ -130,6 +131,8 @@ def _run(case, ctx, sim):
     prof = ExecutionProfile(load_balancing_policy=policy, request_timeout=2.0)
 
     handlers = []
+    seq = itertools.count(1)       # global order of reconnection attempts and removals
+    removed_seq = {}               # id(Host) -> sequence number at which Cluster.on_remove(host) returned
 
     Orig = C._HostReconnectionHandler
 
@@ -143,7 +146,7 @@ def _run(case, ctx, sim):
             handlers.append(self)
 
         def try_reconnect(self):
-            self.rec_attempts.append(world.now)
+            self.rec_attempts.append((world.now, next(seq)))
             try:
                 return Orig.try_reconnect(self)
             except Exception:
@@ -154,14 +157,12 @@ def _run(case, ctx, sim):
             self.rec_succeeded = True
             return Orig.on_reconnection(self, connection)
     sim.patch.set(C, "_HostReconnectionHandler", RecHandler)
-    marks = []      # ("removed" | "adding", address, number of connection attempts so far)
     removed_objs = []   # Host objects whose Cluster.on_remove has returned
 
     adding_now = []     # Host objects whose Cluster.on_add is on some stack right now
     removed_ctx = {}    # id(Host) -> what the cluster was doing with the host when it was removed
 
     def on_remove(self, host, _orig=C.Cluster.on_remove):
-        a, before = host.endpoint.address, len(marks)
         removed_ctx[id(host)] = ("removed-during-on_add" if any(x is host for x in adding_now) else
                                  "removed-during-on_up" if host._currently_handling_node_up else "removed-while-idle")
         try:
@@ -170,11 +171,9 @@ def _run(case, ctx, sim):
             # (the node-list refresh inside on_remove may re-add the address at once: then there is nothing to watch)
             if not self.is_shutdown:
                 removed_objs.append(host)
-                if not any(m[0] == "adding" and m[1] == a for m in marks[before:]):
-                    marks.append(("removed", a, len(net.connect_log)))
+                removed_seq[id(host)] = next(seq)
 
     def on_add(self, host, refresh_nodes=True, _orig=C.Cluster.on_add):
-        marks.append(("adding", host.endpoint.address, len(net.connect_log)))
         adding_now.append(host)
         try:
             return _orig(self, host, refresh_nodes)
@@ -285,18 +284,16 @@ def _run(case, ctx, sim):
                 if bad:
                     ctx.fail(["C25.notify", name, bad], "%s: %s notifications for one Host object of %s: %r" % (where, name, a, seq))
                     return False
-        # removed hosts are never reconnected: no connection attempt to the address between the return of
-        # Cluster.on_remove and the next Cluster.on_add for it
-        for i, (kind, a, ci) in enumerate(marks):
-            if kind != "removed":
-                continue
-            nxt = [m for m in marks[i + 1:] if m[1] == a and m[0] == "adding"]
-            hi = nxt[0][2] if nxt else len(net.connect_log)
-            later = [e for e in net.connect_log[ci:hi] if e[1] == a]
+        # removed hosts are never reconnected: no reconnection attempt for the Host object starts after
+        # Cluster.on_remove(host) has returned
+        for hd in handlers:
+            rs = removed_seq.get(id(hd.host))
+            later = [t for (t, sq) in hd.rec_attempts if rs is not None and sq > rs]
             if later:
                 ctx.fail(["C25.removed-reconnected"],
-                         "%s: Cluster.on_remove(%s) had returned, yet connection attempts to it followed at %r (no on_add "
-                         "in between)" % (where, a, [(round(e[0] - t0, 2), e[2]) for e in later]))
+                         "%s: Cluster.on_remove(%s) had returned, yet its reconnection handler (created at +%.2f s) started "
+                         "attempts at %r" % (where, hd.host.endpoint.address, hd.rec_created - t0,
+                                             [round(t - t0, 2) for t in later]))
                 return False
         return True
 
@@ -306,6 +303,8 @@ def _run(case, ctx, sim):
         qn[0] += 1
         try:
             sim.call(s.execute_async, "SELECT k FROM t /*%d*/" % qn[0])
+        except S.StepBudgetExceeded:
+            raise
         except Exception as e:  # noqa -- execute_async reports through the future
             ctx.fail(["C25.query", "raises", type(e).__name__], "execute_async raised %r" % (e,))
         policy.order = None
@@ -372,6 +371,8 @@ def _run(case, ctx, sim):
         elif kind == "refresh":
             try:
                 sim.call(cluster.refresh_nodes)
+            except S.StepBudgetExceeded:
+                raise
             except Exception as e:  # noqa -- DriverException when the control connection is down: documented
                 ctx.label("refresh-failed:" + type(e).__name__)
         elif kind == "query":
